@@ -161,6 +161,10 @@ class Lowerer(object):
                 return 'isinstance(%s, list)' % args[0]
             if oname == 'Array' and mname == 'from':
                 return 'js.array_from(%s)' % args[0]
+            if oname == 'Math' and mname in ('max', 'min'):
+                return '%s(%s)' % (mname, ', '.join(args))
+            if oname == 'Math' and mname == 'floor':
+                return 'js.floor(%s)' % args[0]
             if oname in self.module_aliases:
                 return '%s.%s(%s)' % (self.module_aliases[oname], pyname(mname), ', '.join(args))
             if callee['object']['type'] == 'Super':
@@ -172,6 +176,10 @@ class Lowerer(object):
             nm = callee['name']
             if nm == 'String':
                 return 'js.to_str(%s)' % args[0]
+            if nm == 'Boolean':
+                return 'js.truthy(%s)' % (args[0] if args else 'js.UNDEF')
+            if nm == 'Number':
+                return 'js.to_number(%s)' % args[0]
             if nm == 'parseInt':
                 return 'js.parse_int(%s)' % ', '.join(args)
             return '%s(%s)' % (pyname(nm), ', '.join(args))
